@@ -460,7 +460,19 @@ def _q_hcheck(reg, c):
     return []
 
 
-QUERY_OPS = {"hq": _q_hq, "hcheck": _q_hcheck}
+def _x_uniquify(reg, c):
+    from spydrnet.uniquify import uniquify
+    uniquify(reg.get("N", c["n"]))
+    return []
+
+
+def _x_flatten(reg, c):
+    from spydrnet.flatten import flatten
+    flatten(reg.get("N", c["n"]))
+    return []
+
+
+QUERY_OPS = {"hq": _q_hq, "hcheck": _q_hcheck, "uniquify": _x_uniquify, "flatten": _x_flatten}
 
 
 def execute(reg, c):
